@@ -208,6 +208,15 @@ def run_shard(rec, tier, seed, shard, nshards):
                 rec.count("scorer_entry_runs")
                 rec.case(("scorer", mc, hetero_mode, kit.array_hash(d), tuple(sizes)), nontrivial=nontriv)
                 got = {int(k): float(v) for k, v in res.items()}
+                if mc == 2:
+                    # same scorer object, second call, plates handed over in another order: nothing may be carried over
+                    keys2 = [int(x) for x in rng.permutation(sorted(plates))]
+                    try:
+                        res2 = scorer.score(plates={k_: plates[k_] for k_ in keys2}, distance_matrix=cdm, samples=holder, rng=grng(), progress_bar=False)
+                        rec.count("metamorphic_checks")
+                        rec.check(all(same(float(res2[k_]), got[int(k_)], 1e-10) for k_ in res2), "C05/metamorphic/depends-on-earlier-calls", "a second call of the same scorer object (plates in another order) gives other scores", w)
+                    except Exception as e:
+                        rec.violation("C05/scorer/raises", "second call of the scorer raised %r" % (e,), w)
                 rec.check(sorted(got) == sorted(plates), "C05/scorer/keys", lambda: "scorer returned ids %r for plates %r" % (sorted(got), sorted(plates)), w)
                 for p in range(P):
                     pid = name_to_id["p%02d" % p]
